@@ -202,7 +202,7 @@ def coqchk_property(pid):
     return ok, 'coqchk -o ZT.P_%s: exit %d, axioms %s%s' % (pid, p.returncode, axioms, (', flagged: ' + ', '.join(bad)) if bad else '')
 
 
-def run_cases(pid, chk_module, case_terms, shard=400, extra_imports=(), check_fn='check', timeout=900, case_type=None):
+def run_cases(pid, chk_module, case_terms, shard=400, extra_imports=(), check_fn='check', timeout=2400, case_type=None):
     """Evaluate `check` of chk_module on every case inside Coq; return {index: code} for codes != 0.
     case_terms: list of Gallina terms of type `case`."""
     d = os.path.join(scratch(), 'cases_%s_%d' % (pid, int(time.time() * 1000) % 10**9))
@@ -223,7 +223,8 @@ def run_cases(pid, chk_module, case_terms, shard=400, extra_imports=(), check_fn
     def one(item):
         k, fn = item
         try:
-            p = subprocess.run(['timeout', str(timeout), 'coqc', '-Q', COQ, 'ZT', fn],
+            # large case literals (thousands of names) overflow coqc's default stack while being parsed
+            p = subprocess.run(['sh', '-c', 'ulimit -s unlimited 2>/dev/null; exec timeout "$0" coqc -Q "$1" ZT "$2"', str(timeout), COQ, fn],
                                stdout=subprocess.PIPE, stderr=subprocess.STDOUT, text=True, cwd=d)
         except Exception as e:      # pragma: no cover
             raise CoqError('coqc could not run on %s: %s' % (fn, e))
